@@ -9,7 +9,8 @@
    poles (two identical underdamped RLC sections through an ideal buffer; RLC driven at its own complex natural
    frequency) -- every run starts with this family; cascades of sections
    isolated by controlled sources; coupled inductors; ideal transformers; dc-driven circuits with a switch operated at
-   t = 0, converted by `convert_IVP`) x source waveforms (step, dc, ac, exponential, ramp, t e^{-at}, damped sine,
+   t = 0, and step-driven circuits with a switch operated at T > 0 while the response is still moving, converted by
+   `convert_IVP` with selection times T, T+1, T+2) x source waveforms (step, dc, ac, exponential, ramp, t e^{-at}, damped sine,
    delayed step / exponential, impulse, delayed impulse; rates sometimes equal to a natural frequency) x with / without
    initial conditions x numeric / partly symbolic R, C, L values (substituted by name into Lcapy's result):
      * ORACLE: Lcapy's closed forms `cct[node].v`, `cpt.i` (all branch currents), canonicalised into the formal
@@ -625,6 +626,45 @@ def gen_switched(rng):
     return {'template': 'switched-%s:%s' % (shape, sw_type), 'switched': lines, 'sw_type': sw_type, 'waves': ['dc'], 'poles': 'unknown', 'whole_axis': False}
 
 
+SWT_PAIRS = [((Fraction(-1), Fraction(-4)), ('real', Fraction(-2), Fraction(-2))),
+             ((Fraction(-1), Fraction(-6)), ('real', Fraction(-2), Fraction(-3))),
+             ((Fraction(-1, 2), Fraction(-8)), ('real', Fraction(-1), Fraction(-4))),
+             ((Fraction(-1), Fraction(-4)), ('complex', Fraction(-6, 5), Fraction(8, 5)))]
+
+
+def gen_switched_T(rng, shape=None):
+    """step-driven circuit (zero state at t = 0) with one switch operated at an integer time T > 0, while the pre-switch
+    response is still moving: the state handed to the initial-value problem is the pre-switch response AT T.
+    Natural frequencies p of the pre-switch circuit are chosen with p*T a multiple of 1/4 (exp stand-in)."""
+    A = sv(rng)
+    T = rng.choice([1, 1, 2])
+    sw_type = rng.choice(['no', 'nc'])
+    shape = shape or rng.choice(['cap', 'ind', 'rlc'])
+    p = -Fraction(rng.choice([1, 2, 3, 4]), 2)
+    r1, r2 = rv(rng), rv(rng)
+    if shape == 'cap':
+        g = (1 / r1 + 1 / r2) if sw_type == 'nc' else 1 / r1          # conductance seen by C before the switch operates
+        c = g / (-p)
+        lines = ['V1 1 0 step %s' % fs(A), 'R1 1 2 %s' % fs(r1), 'C1 2 0 %s' % fs(c), 'SW1 2 3 %s %d' % (sw_type, T), 'R2 3 0 %s' % fs(r2)]
+    elif shape == 'ind':
+        r = (r1 * r2 / (r1 + r2)) if sw_type == 'nc' else r1
+        l = r / (-p)
+        lines = ['V1 1 0 step %s' % fs(A), 'R1 1 2 %s' % fs(r1), 'L1 2 0 %s' % fs(l), 'SW1 1 3 %s %d' % (sw_type, T), 'R2 3 2 %s' % fs(r2)]
+    else:
+        # series R-L-C; a switch shorts (no) / inserts (nc) the resistor R1 at T; both pole sets chosen
+        (p1, p2), post = rng.choice(SWT_PAIRS)
+        hi_sum, lo = p1 + p2, post
+        lo_sum, pr = sum_prod(lo)
+        l = rng.choice([Fraction(1), Fraction(1, 2), Fraction(2)])
+        c = 1 / (l * pr)
+        rb = -lo_sum * l                    # resistance with R1 shorted
+        ra = -hi_sum * l - rb               # R1
+        lines = ['V1 1 0 step %s' % fs(A), 'R1 1 2 %s' % fs(ra), 'R2 2 3 %s' % fs(rb), 'L1 3 4 %s' % fs(l), 'C1 4 0 %s' % fs(c),
+                 'SW1 1 2 %s %d' % (sw_type, T)]
+    return {'template': 'switched-T-%s:%s' % (shape, sw_type), 'switched': lines, 'sw_type': sw_type, 'T': T, 'waves': ['step'],
+            'poles': 'chosen', 'whole_axis': False}
+
+
 def switch_line(l, closed):
     w = l.split()
     return ('W %s %s' % (w[1], w[2])) if closed else ('O %s %s' % (w[1], w[2]))
@@ -632,7 +672,7 @@ def switch_line(l, closed):
 
 def gen_case(rng):
     if rng.random() < 0.12:
-        return gen_switched(rng)
+        return gen_switched_T(rng) if rng.random() < 0.4 else gen_switched(rng)
     ic = rng.random() < 0.45
     B.symbolic = rng.random() < 0.25
     whole = (not ic) and rng.random() < 0.2
@@ -668,6 +708,10 @@ def run(chk, replay=None):
         'the harness canonicaliser c02.TCanon / c10.Canon (SymPy time-domain expression -> formal signal items; a term without '
         'Heaviside factor in a result without the t >= 0 condition is read as valid on the whole time axis)',
         'the waveform table of harness/c02.py (Lcapy source text <-> formal signal items of the same waveform)',
+        'switched circuits with T > 0 (harness-only parts): the value of the initial-condition expression Lcapy writes (exp of rationals) '
+        'is computed by c09.Sampler with the same multiplicative stand-in for exp that the Lean driver uses in `evalAt`; the state itself is '
+        'the Lean spec function evalAt applied to pre-switch signals that passed the Lean time-domain laws (uniqueness of that solution '
+        'is assumed, cf. response_unique_partial); Lcapy keeps step sources unshifted in the converted circuit, so only step sources are used',
         'the C01 netlist front-end (Model/Netlist.lean) that both the time-domain spec check and the s-domain model use',
         'the multiplicative stand-in for exp of rational constants (Driver/C09.lean mkE, c09.Sampler)']
     drv = chk.get_driver()
@@ -796,8 +840,11 @@ def run(chk, replay=None):
                     return False, 'no-ac-steady-state'
         return True, 'solvable'
 
-    def one(case, idx):
-        smp = Sampler(rng, S)
+    last = [None]          # (signals, assignment text, laws verdict ok) of the most recent `one`
+
+    def one(case, idx, smp=None):
+        last[0] = None
+        smp = smp or Sampler(rng, S)
         key_lines = tuple(case['lines'])
         chk.count('template', case['template'])
         chk.count('initial-conditions', 'yes' if case['has_ic'] else 'no')
@@ -849,7 +896,7 @@ def run(chk, replay=None):
         chk.count('result-form', 'guarded' if guarded else ('whole-axis' if has_pre else 'causal'))
         assign = ' | '.join('%s %s' % (k, sig_tokens(sg)) for k, sg in sigs.items())
         reported = ' | '.join('%s %s' % (k, sig_tokens(sg)) for k, sg in rep.items())
-        jcase = {k: case[k] for k in ('template', 'lines', 'lcapy', 'has_ic', 'waves', 'poles', 'whole_axis', 'switched', 'subs') if k in case}
+        jcase = {k: case[k] for k in ('template', 'lines', 'lcapy', 'has_ic', 'waves', 'poles', 'whole_axis', 'switched', 'subs', 'T', 'selection_time') if k in case}
         lc_out = {k: sg['text'] for k, sg in list(sigs.items())}
         if idx < 4:
             chk.sample({'netlist': case['lcapy'], 'signals': lc_out, 'items': {k: sig_tokens(sg) for k, sg in sigs.items()}})
@@ -876,6 +923,7 @@ def run(chk, replay=None):
                 'Lcapy time-domain response violates %s' % ('KCL at node %s' % w[1] if clause == 'kcl' else 'the law of %s' % w[1]))
         else:
             chk.count('oracle', 'laws-ok')
+        last[0] = (sigs, assign, v == 'ok')
         # ---- oracle 2: the laws on the pre-history (whole-axis results)
         if has_pre and not guarded:
             pre_lines = []
@@ -1015,11 +1063,111 @@ def run(chk, replay=None):
                 chk.count('oracle', 'state-handover-ok')
         return out
 
+    import re as _re
+    ic_pat = _re.compile(r'^(\S+) (\S+) (\S+) (\{[^}]*\}|\S+)(?: (\{[^}]*\}|\S+))?\s*$')
+
+    def resolve_switched_T(case, idx):
+        """switch operated at T > 0 in a step-driven circuit.
+        (1) the pre-switch circuit (zero state, switch in its position before T): Lcapy's response is checked against the
+            Lean time-domain laws like any other case (`one`);
+        (2) the Lean spec function `evalAt` gives the capacitor voltages / inductor currents of those VERIFIED signals at the
+            instant T (exp through the stand-in E): the state the initial-value problem must start from;
+        (3) `convert_IVP(T)`, `convert_IVP(T+1)`, `convert_IVP(T+2)`: the initial conditions Lcapy writes (exp evaluated with the
+            same stand-in by the harness) must all equal that state -- whatever later selection time the caller passes;
+        (4) the response of one of the converted circuits is checked against the laws FROM THE LEAN STATE (`one`)."""
+        T = case['T']
+        smp = Sampler(rng, S)
+        pre_m, post_m, pre_l = [], [], []
+        for l in case['switched']:
+            w = l.split()
+            if l.startswith('SW'):
+                was_closed = w[3] == 'nc'
+                pre_m.append(switch_line(l, was_closed))
+                pre_l.append(switch_line(l, was_closed))
+                post_m.append(switch_line(l, not was_closed))
+            elif l.startswith('V'):
+                a = fstr(Fraction(w[4].strip('{}')))
+                pre_m.append('%s %s %s sig ep %s 0 0 0' % (w[0], w[1], w[2], a))
+                post_m.append('%s %s %s sig pre %s 0 0 ep %s 0 0 0' % (w[0], w[1], w[2], a, a))
+                pre_l.append(l)
+            else:
+                pre_m.append(l)
+                post_m.append(l)
+                pre_l.append(l)
+        case_pre = {'template': case['template'].split(':')[0] + ':pre-switch', 'lines': pre_m, 'lcapy': pre_l, 'has_ic': False,
+                    'waves': ['step'], 'poles': 'chosen', 'whole_axis': False, 'subs': {}}
+        one(case_pre, idx, smp)
+        if last[0] is None or not last[0][2]:
+            chk.count('degenerate', 'switched-T:pre-switch-response-unavailable')
+            return
+        sigs, assign, _ = last[0]
+        rep = drv.ask1('td.evalat %s %s || %s || %s' % (smp.env_tokens(), fstr(Fraction(T)), ' || '.join(pre_m), assign))
+        want = {}
+        if rep.startswith('ok'):
+            for tok in rep.split(' ')[1:]:
+                nm, val = tok.split('=')
+                want[nm] = c09.parse_val(val)
+        if not want or any(v is None or v[1] != 0 for v in want.values()):
+            chk.count('degenerate', 'switched-T:state-not-evaluated')
+            return
+        sel_times = [T, T + 1, T + 2]
+        texts = {}
+        for sel in sel_times:
+            try:
+                with common.time_limit(30):
+                    ivp = Circuit('\n'.join(case['switched'])).convert_IVP(sel)
+                    ltxt = [x.strip() for x in str(ivp).split('\n') if x.strip()]
+            except common.TimeLimit:
+                chk.count('degenerate', 'switched-T:time-limit')
+                return
+            except Exception as ex:   # noqa
+                chk.count('degenerate', 'switched-T:convert_IVP-' + type(ex).__name__)
+                return
+            texts[sel] = ltxt
+            for l in ltxt:
+                m = ic_pat.match(l)
+                if not m or m.group(1) not in want:
+                    continue
+                nm = m.group(1)
+                ictxt = (m.group(5) or '0').strip('{}')
+                try:
+                    gv = smp.value(S.sympify(ictxt, rational=True), S.Symbol('unused_s'), {})
+                except Exception:   # noqa
+                    gv = None
+                if gv is None:
+                    chk.count('degenerate', 'switched-T:ic-not-evaluated')
+                    continue
+                if gv != want[nm]:
+                    ncex[0] += 1
+                    chk.counterexample({'template': case['template'].split(':')[0], 'kind': 'state-handover', 'cpt': nm[0], 'switched': True,
+                                        'selection': 'at-switching-time' if sel == T else 'later'},
+                                       {'input': {'case': {k: case[k] for k in ('template', 'switched', 'T', 'sw_type', 'waves', 'poles', 'whole_axis')}},
+                                        'selection_time': sel, 'lcapy': ltxt, 'pre_switch_response': {k: sg['text'] for k, sg in sigs.items()},
+                                        'spec': '%s at the switching instant T = %s: evalAt of the pre-switch response = %s under the exponential stand-in; '
+                                                'convert_IVP(%s) wrote %s = %s' % (nm, T, fstr(want[nm][0]), sel, ictxt, fstr(gv[0]))},
+                                       'convert_IVP(%s) starts %s from %s, not from the pre-switch solution at the switching instant T = %s' % (sel, nm, ictxt, T))
+                else:
+                    chk.count('oracle', 'state-handover-T-ok:' + ('at-T' if sel == T else 'later'))
+        sel = rng.choice(sel_times)
+        lines = []
+        for l in post_m:
+            w = l.split()
+            if w[0] in want:
+                lines.append('%s %s' % (l, fs(want[w[0]][0])))
+            else:
+                lines.append(l)
+        case_post = dict(case)
+        case_post.update({'lines': lines, 'lcapy': texts[sel], 'has_ic': True, 'subs': {}, 'selection_time': sel})
+        one(case_post, idx, smp)
+
     t0 = time.time()
     if replay:
         rp = json.load(open(replay if os.path.isabs(replay) else os.path.join(common.VERIF, replay)))
         case = rp.get('input', {}).get('case')
-        if case:
+        if case and 'T' in case and 'switched' in case:
+            chk.coverage['replayed'] = case['switched']
+            resolve_switched_T({k: v for k, v in case.items() if k not in ('lines', 'lcapy', 'has_ic', 'selection_time')}, 0)
+        elif case:
             if 'switched' in case and 'lines' not in case:
                 case = resolve_switched(case)
             if case:
@@ -1034,6 +1182,7 @@ def run(chk, replay=None):
                     one(json.load(open(os.path.join(corpus_dir, fn)))['case'], idx)
                     idx += 1
         n_rc = 6 if quick else 60          # every run starts with the repeated complex-conjugate family (all variants)
+        n_swt = 3 if quick else 45         # ... then switches operated at T > 0 on a pre-switch response that is still moving
         rc_variants = ['cascade', 'resonant', 'resonant-parallel', 'resonant', 'cascade', 'resonant']
         for k in range(ncases):
             if time.time() - t0 > budget:
@@ -1044,8 +1193,14 @@ def run(chk, replay=None):
                 ic_k = (k % 4 == 3)
                 case = gen_repeated_complex(rng, ic_k, CAUSAL_KINDS, rc_variants[k % len(rc_variants)])
                 case['whole_axis'] = False
+            elif k < n_rc + n_swt:
+                case = gen_switched_T(rng, ['cap', 'ind', 'rlc'][(k - n_rc) % 3])
             else:
                 case = gen_case(rng)
+            if case is not None and 'T' in case:
+                resolve_switched_T(case, idx)
+                idx += 1
+                continue
             if case is not None and 'switched' in case:
                 case = resolve_switched(case)
             if case is None:
